@@ -109,6 +109,10 @@ def units(tier, seed):
         for gens in (1, 3):
             descs.append(dict(engines=list(eng), gens=gens, obj=("sphere_in", "plateau")[k5 % 2], Mh=3, seed=s + k5, sprout={"kind": ("simple", "nbc")[k5 % 2], "L": 2}, maximize=bool(k5 % 2),
                               pmut=(1.0, 0.5)[k5 % 2]))
+    # beyond the small scope (hmsmc/scale.py): run once each
+    from ..scale import big_population_worlds, high_dimension_worlds
+
+    descs += big_population_worlds(tier, seed) + high_dimension_worlds(tier, seed)
     us = [{"kind": "run", "descs": c} for c in chunks(descs, 30)]
     rsh = rep_shapes() if tier == "quick" else rep_shapes() + [list(e) for e in shapes_h2()[::3]]
     for k, eng in enumerate(rsh):
